@@ -572,7 +572,7 @@ func allPathsReturnError(b, join *ssa.BasicBlock) bool {
 		for _, in := range x.Instrs {
 			switch t := in.(type) {
 			case *ssa.Return:
-				return len(t.Results) > 0 && !isNilConst(t.Results[len(t.Results)-1])
+				return len(t.Results) > 0 && !isNilConst(retVal(t, len(t.Results)-1))
 			case *ssa.Panic:
 				return true
 			}
